@@ -211,8 +211,12 @@ func enumerate(A []atom, thorough bool) []job {
 			rec(mode, alpha, append(pre, a), max)
 		}
 	}
+	maxLen := 2
+	if os.Getenv("VERIF_C04_MAXLEN") == "1" { // debugging aid
+		maxLen = 1
+	}
 	for _, mode := range []string{"size3", "final"} {
-		rec(mode, all, nil, 2)
+		rec(mode, all, nil, maxLen)
 	}
 	if thorough {
 		for _, mode := range []string{"size5", "final", "size3"} {
@@ -292,6 +296,13 @@ func main() {
 		}
 		os.RemoveAll(scratch)
 		return
+	}
+	if s := os.Getenv("VERIF_C04_LIMIT"); s != "" { // debugging aid
+		var n int
+		fmt.Sscanf(s, "%d", &n)
+		if n < len(jobs) {
+			jobs = jobs[:n]
+		}
 	}
 	const chunk = 96
 	var chunks [][]job
